@@ -279,6 +279,7 @@ fn run_stream(ctx: &mut Ctx, cfg: &ReqCfg, body: &[u8], stream: &[u8], close_aft
     let ex = Exchange { prop: "C12", body, policy, server: ServerPlan { msgs: vec![], close_after }, fixed_stream: Some(FixedStream { stream, consumed: 0, visible: 0, arrivals }) };
     let mut obs = ex.run(ctx, start)?;
     check_obs(&obs, stream)?;
+    ctx.sig(obs.schedule_sig());
     ctx.sig3(obs.edges.len() as u64, match &obs.terminal { Terminal::Error(..) => 1, Terminal::Stuck(_) => 2, Terminal::Redirect(_) => 3, Terminal::Cleanup(_) => 4 }, obs.calls.min(60) as u64);
     match &obs.terminal {
         Terminal::Error(s, _) => {
